@@ -197,7 +197,9 @@ def run_case(ctx, drv, name, cfg, rng, variant, readonly, stats):
     obs = observe(world, readonly)
     viol, tie = compare(pred, obs, world)
     stats["n"] += 1
-    if viol:
+    if viol and len(ctx.violations) >= 20:
+        stats["more"] = stats.get("more", 0) + 1     # enough replay files; keep counting
+    elif viol:
         ctx.violation("probe: %s cfg=%s (%s)" % (name, cfg, "read-only arrays" if readonly else "byte-wise comparison"),
                       "%s %s: %s" % (name, E.describe(name, cfg), viol),
                       dict(entry=name, cfg=cfg, variant=variant, readonly=readonly, options=E.describe(name, cfg),
